@@ -278,3 +278,17 @@ PROPS["C04"] = dict(
     assumptions=["strict RDF / RDF-star input, absolute IRIs (no backslash), distinct prefixes, indentation made of Turtle white space",
                  "rdf:first and rdf:rest are distinct terms"],
 )
+
+PROPS["C16"] = dict(
+    level="proof",
+    runs=[dict(bin="c16", profiles=["dev", "release"])],
+    quick=dict(n=600, shards=8, args=["--big", "100000"]),
+    thorough=dict(n=3000, shards=16, args=["--big", "1000000"], run_timeout=3600, coq_case_timeout=3000),
+    trusted_base=[
+        "frame-counting model coq/C16/Model.v (cost monad ret/bind/call: a Rust loop adds no frame, a self-call adds one) of the five matching iterators of sophia_inmem, nt::quoted_string, exec::graph/graph_rec with the FilterMap/Chain/Flatten iterators it builds, engine::mark_list_node/populate_list/convert_rdf_object, _pretty::find_subject, Term::constituents/atoms (hand-written; original recursive and repaired loop shapes side by side)",
+        "the theorems count frames of the model: the optimiser (LLVM turns the iterators' and quoted_string's tail self-calls into jumps in release builds) and the size of a frame are outside them; they are observed by the oracle: subprocess of the harness on a 2 MiB thread in dev and release, addresses seen by caller-supplied callbacks (closure matchers, io::Write sink, probing Dataset), mincore(2) high-water mark of the fresh thread stack (Linux, 4 KiB pages)",
+        "select(inner) and third-party iterators/parsers (Rio, json-syntax, BTreeSet) are opaque: their depth is a quantity of the theorems (dsel) or not modelled; find_subject is not reachable from the harness (tied by reading only)",
+    ],
+    assumptions=["stack oracle: Linux, glibc thread stacks mapped lazily",
+                 "the pretty Turtle serializer takes quadratic time, so its operations are run at 300..1000 (quick) / 3000 dev, 10000 release (thorough) elements, not 10^6"],
+)
